@@ -911,6 +911,58 @@ def check_interleaved(case):
     return info
 
 
+@st.composite
+def reconfigure_histories(draw, tier):
+    """The scan loop: one detector object is used on a series, re-configured with set_params (bandwidth, minimum / maximum
+    lengths, growth factor, scales, levels ...) and used again on a series of the SAME length - repeatedly. Whatever the
+    object remembered from its earlier configuration (per-length caches, tuned thresholds) must not show."""
+    det = draw(st.sampled_from(K.DETECTORS))
+    p = 1 if det == "StatThresholdAnomaliser" else draw(st.integers(1, 2))
+    configs = [draw(K.detector_params(det, p, max_msl=4, max_bw=8, allow_cov=False)) for _ in range(draw(st.integers(2, 4)))]
+    n_min = max(c[1] for c in configs)
+    n = draw(st.integers(max(n_min, 12), max(n_min, 12) + 30))
+    first = configs[0][0]
+    ops = [{"op": "new_detector", "slot": 0, "spec": K.detector_spec(det, first)}]
+    k = draw(st.integers(2, 3))
+    d = 0
+    for i, (params, _) in enumerate(configs):
+        if i > 0:
+            scalar = {key: v for key, v in params.items() if not isinstance(v, dict) and (v is not None or key.endswith("scale"))
+                      and first.get(key) != v}
+            if not scalar:
+                continue
+            ops.append({"op": "set_params", "slot": 0, "params": scalar})
+            first = dict(first, **scalar)
+        ops.append({"op": "fit", "slot": 0, "data": d % k})
+        for method in draw(st.lists(st.sampled_from(["predict", "transform_scores", "transform"]), min_size=1, max_size=2)):
+            if method == "transform_scores" and det not in ("PELT", "MovingWindow", "CAPA", "MVCAPA"):
+                method = "predict"
+            ops.append({"op": method, "slot": 0, "data": draw(st.integers(0, k - 1))})
+        d += 1
+    # re-baselining: the fixed parameter of a nested cost is changed through the detector (cost__param=...)
+    key = SHARE_KEY.get(det)
+    nested = configs[0][0].get(key) if key else None
+    if isinstance(nested, dict) and nested.get("cls") in ("L2Cost",) and nested.get("param") is not None and draw(st.booleans()):
+        ops.append({"op": "set_params", "slot": 0, "params": {f"{key}__param": draw(st.sampled_from([1.5, -2.0, 5.0]))}})
+        ops.append({"op": "fit", "slot": 0, "data": d % k})
+        ops.append({"op": "predict", "slot": 0, "data": d % k})
+        if det in ("PELT", "MovingWindow", "CAPA", "MVCAPA"):
+            ops.append({"op": "transform_scores", "slot": 0, "data": d % k})
+    datasets = []
+    for _ in range(k):  # all of the same length; bulk data last (see strategies/data.py)
+        X, _ = draw(D.structured_matrix(n, p, max_shifts=2, max_spikes=2, max_bumps=1))
+        datasets.append(X)
+    return {"datasets": datasets, "ops": ops}
+
+
+def check_reconfigure(case):
+    info = check(case)
+    det = next(op["spec"]["cls"] for op in case["ops"] if op["op"] == "new_detector")
+    info["classes"] = list(info.get("classes", [])) + [f"det={det}", f"set_params_calls={sum(op['op'] == 'set_params' for op in case['ops'])}"]
+    info["nontrivial"] = any(op["op"] == "set_params" for op in case["ops"]) and info.get("nontrivial", False)
+    return info
+
+
 def check_stale(case):
     info = check(case)
     det = next(op["spec"]["cls"] for op in case["ops"] if op["op"] == "new_detector")
@@ -928,6 +980,12 @@ FACETS = [
                 "transform_scores on fewer columns; every outcome (value or exception class) must equal that of a freshly built object; "
                 "non-trivial = produces outputs on >= 2 datasets"),
           n_quick=160, n_thorough=3000, shards_quick=4, shards_thorough=8, max_samples=2),
+    Facet(name="reconfigured_same_length", check=check_reconfigure, strategy=reconfigure_histories,
+          rule=("generated histories (the scan loop): one detector used on a series, re-configured through set_params with 1-3 further generated "
+                "configurations (bandwidth, minimum / maximum lengths, growth factor, scales, levels, min_detection_interval ...) and after each "
+                "fitted and applied again to series of the SAME length; every outcome must equal that of a freshly built object; "
+                "non-trivial = at least one set_params and outputs on >= 2 data sets"),
+          n_quick=200, n_thorough=3000, shards_quick=8, shards_thorough=16, max_samples=2),
     Facet(name="interleaved_scorers", check=check_interleaved, strategy=interleaved_scorer_histories,
           rule=("generated histories: 2-3 stand-alone scorers (11 specs, often the same class twice) alive together, fitted on different data of "
                 "the same shape, then 3-8 steps of evaluate on shared popular segments (whole series, halves, thirds) / refit / clone in "
